@@ -237,7 +237,8 @@ def apply_text_match(el: ET.Element, value: str) -> bool:
 
 
 def apply_param_filter(el, prop):
-    name = el.get("name")
+    # parameter names are case-insensitive; vobject keeps them in upper case
+    name = el.get("name").upper()
     if len(el) == 1 and el[0].tag == "{urn:ietf:params:xml:ns:carddav}is-not-defined":
         return name not in prop.params
 
